@@ -15,10 +15,10 @@ CHECKS = {
          "Exploration: for every accepted generated command line the values recorded inside the Action must be consumable, token for token and in order, by some derivation of the reference automaton (nothing invented, dropped, duplicated, moved; tokens after -- verbatim); for specs without -- the option part must equal the reader's occurrence list, and a twin run with built-in variable types must agree.",
          "Trusted: admission search of DESIGN.md 3.4; recording types; unclaimed zones skipped and counted.", "5/C02"),
  "C03": ("crash / CPU-budget watchdog around isolated worker processes; hostile spec, argv and environment-subset workload",
-         "Exploration with a liveness watchdog: every case (compile + parse under all 32 subsets of env-backed options) runs in an isolated worker with a journal; worker death, an undocumented panic, a position outside the string or more than 5 CPU-seconds for one case is a violation attributed to the journalled input. 'Never hangs' is restated as this bounded progress.",
+         "Exploration with a liveness watchdog: every case (compile + parse under all 32 subsets of env-backed options) runs in an isolated worker with a journal; worker death, an undocumented panic, a position outside the string or more than 5 CPU-seconds for one case is a violation attributed to the journalled input; a family of long (20-64 token) lines on ambiguous repetitions separates polynomial from exponential backtracking. 'Never hangs' is restated as this bounded progress.",
          "Trusted: getrusage CPU accounting, SetMaxStack, the journal surviving a process crash (page cache). Inputs bounded: spec <= 256 bytes, nesting <= 64, <= 5 options, argv <= 16 tokens.", "5/C03"),
  "C08": ("bounded-exhaustive + random differential monitor of the real lexer/parser (via Run and the VerifTokenize hook) against a reference recogniser; token-extent monitor",
-         "Exploration, exhaustive over two finite families (all strings over 19 character classes up to length 4/6, all sequences of up to 4/6 of 15 tokens) plus random longer strings: compile-or-reject must agree with the reference grammar, the reported position must lie in the offending lexeme / at the first token the LL(1) reading fails on, no hook or Action may run before the panic (also for a subcommand's spec), and the hooked token stream must tile the non-blank bytes of the spec exactly.",
+         "Exploration, exhaustive over two finite families (all strings over 19 character classes up to length 4/6, all sequences of up to 4/6 of 15 tokens) plus random longer strings against every declared/undeclared naming and sequences of specs given in turn to one application object (optionally with a version flag requested): compile-or-reject must agree with the reference grammar, the reported position must lie in the offending lexeme / at the first token the LL(1) reading fails on, no hook or Action may run before the panic (also for a subcommand's spec), and the hooked token stream must tile the non-blank bytes of the spec exactly.",
          "Trusted: reference grammar of DESIGN.md 3.1 (own lexer and LL(1) parser); '--' glued to a non-name character is unclaimed.", "5/C08"),
  "C09": ("metamorphic runtime monitor (-- inserted into the trailing positional block of the same real application) + reference-judged spec-level -- workloads",
          "Exploration: (T) inserting -- at any point of the trailing block of non-dash positionals, including the very end, must not change acceptance or any bound value; (S,V) specs containing -- and hostile dash-prefixed tails are judged by the reference for acceptance and verbatim binding (first -- bound to nothing, later ones verbatim), and 'head tail' must equal 'head -- tail' wherever the reference admits one and the same single binding.",
@@ -33,19 +33,19 @@ CHECKS = {
          "Exploration: accepted without environment => accepted with any subset of options backed by set valid variables, same values for options written on the command line (specs without --); a required option absent from the line is satisfied by its variable (with a negative control); an env-backed option written 1-4 times under [OPTIONS], a folded group, -e..., [-e]... is accepted with all values bound.",
          "Trusted: the worker sets/unsets the variables around the declarations, one case at a time.", "5/C12"),
  "C16": ("metamorphic runtime monitor: twin real applications (no spec vs explicit [OPTIONS] ARG...) + usage line read back from the help",
-         "Exploration: random declaration sets, twin apps run on derived and mutated command lines must have identical outcomes, the reference verdict for the implicit spec must agree, and both usage lines must read 'Usage: app <spec>'.",
+         "Exploration: random declaration sets, twin apps (arguments declared before or after the options, related argument names, env-backed arguments, optional version flag) run on derived and mutated command lines, and a second time on the same objects, must have identical outcomes, the reference verdict for the implicit spec must agree, and both usage lines must read 'Usage: app <spec>'.",
          "Trusted: outcome comparison through recording types; usage line = first 'Usage:' line of --help output.", "5/C16"),
  "C04": ("runtime monitor on random command trees: hook/Action event log + per-level recording variables, judged by a routing model and the per-level reference semantics",
-         "Exploration: random trees (depth<=3, aliases, per-level specs), invocations written with random aliases and per-level derived/mutated tokens; exactly the addressed Action must run once inside the Before/After nesting, every level's variables must hold a derivation of that level's own tokens, all other commands stay untouched, and an unconsumed token yields a usage error with no event.",
+         "Exploration: random trees (up to six levels, aliases, per-level specs, optional application version flag and sub-commands with their own -V), invocations written with random aliases and per-level derived/mutated tokens, values spelled like commands of other levels, commands declared after a first Run; exactly the addressed Action must run once inside the Before/After nesting, every level's variables must hold a derivation of that level's own tokens, all other commands stay untouched, and an unconsumed token yields a usage error with no event.",
          "Trusted: routing model of DESIGN.md 3.5 and the reference matcher per level; argument vectors never spell an alias of their own level.", "5/C04"),
  "C05": ("bounded-exhaustive runtime monitor of the hook flow (event log, exit stub, recovered panic identity) against an executable flow model; sample validated in real child processes with the real os.Exit",
-         "Exploration, exhaustive over all combinations of {absent, returns, panics, Exit(n)} for every Before/Action/After on chains of depth<=2 (quick) / <=3 (thorough) plus random deeper chains: exact event order, Afters of completed levels always run, exit once and last with the most recent status, re-raised panic value pointer-identical. The thorough tier re-runs sampled combinations in child processes without any stub.",
+         "Exploration, exhaustive over all combinations of {absent, returns, panics, Exit(n)} for every Before/Action/After (five behaviours incl. Exit(0); panic values of four kinds; all three policies) on chains of depth<=2 (quick) / <=3 (thorough) plus random deeper chains, half of those run twice on one application object: exact event order, Afters of completed levels always run, exit once and last with the most recent status, re-raised panic value pointer-identical. The thorough tier re-runs sampled combinations in child processes without any stub.",
          "Trusted: the flow model of DESIGN.md 3.6; in-process exit stub = record + runtime.Goexit (validated against real processes). Configurations with an absent Action are unclaimed.", "5/C05"),
  "C06": ("runtime monitor reading built-in variables inside the Action, judged by a value model (precedence rules + strconv)",
          "Exploration: seven types x option/argument x declaration entry point x default x 0-3 environment variables (unset/empty/valid/invalid, lists with blanks) x 0-3 command-line values; the value seen by the Action must be the command-line one(s), else the first valid non-empty variable, else the default. The known finding D5 is matched by a narrow predicate and reported as KNOWN-FINDING; anything else is a violation.",
          "Trusted: strconv as conversion oracle; KNOWN_FINDINGS.txt predicate for D5.", "5/C06"),
  "C07": ("runtime monitor on random command trees under the three error policies: event log, exit stub, recovered panic, error stream, judged by the routing model; typed trees via a recording twin run",
-         "Exploration: every kind of rejection (spec mismatch, unknown word, undeclared/malformed option, non-convertible value) at root, middle and leaf, under ContinueOnError / ExitOnError / PanicOnError: no hook or Action event, error text and usage of the rejecting command on the error stream, then exactly the policy's outcome (non-nil error / exit 2 once / panic with an error); accepted controls return nil.",
+         "Exploration: every kind of rejection (spec mismatch, unknown word, undeclared/malformed option, non-convertible value) at root, middle and leaf, under ContinueOnError / ExitOnError / PanicOnError (also set per command in its initializer, or assigned to the application after the declarations), including a second rejection by the same application object: no hook or Action event, error text and usage of the rejecting command on the error stream, then exactly the policy's outcome (non-nil error / exit 2 once / panic with an error); accepted controls return nil.",
          "Trusted: routing model; exit stub; error wording taken from the ContinueOnError twin.", "5/C07"),
  "C13": ("differential runtime monitor: built-in typed variables of the real library vs strconv on an edge-case token pool, command-line and environment delivery",
          "Exploration: ~120 edge-case tokens x seven types x option/argument x delivery; accepted iff strconv accepts, bound value bit-identical to the parse, strings byte for byte, unparsable command-line token => usage error and no Action.",
@@ -57,16 +57,16 @@ CHECKS = {
          "Exploration: SetByUser must equal 'the command line supplied a value' for all types, options and arguments, with any combination of environment and default; on trees for every command incl. those not addressed and env-backed options without occurrence.",
          "Trusted: the recording binding as ground truth for 'the command line bound a value' on trees (itself judged by C02/C04).", "5/C15"),
  "C17": ("runtime monitor: rendered help (long via --help, short via usage error) parsed back and compared with a model of the declarations",
-         "Exploration: random declarations at depth<=2 (names, aliases, descriptions incl. multi-line, env lists, defaults of every type incl. empty ones and zero, HideValue, Hidden, LongDesc, version flag); usage line, description, section order, row count/order/content must match exactly; hidden commands and undeclared rows must not appear.",
+         "Exploration: random declarations at depth<=2 (names, aliases, descriptions incl. multi-line, env lists, defaults of every type incl. empty ones and zero, HideValue, Hidden, LongDesc, version flag); usage line, description, section order, row count/order/content must match exactly; hidden commands and undeclared rows must not appear; custom value types show String() unless IsDefault(); a deep bare tree is asked for help twice on one object (usage path); hostile $COLUMNS values must not matter.",
          "Trusted: parse-back of the tabular layout; layout itself not judged.", "5/C17"),
  "C18": ("runtime monitor around every declaration call (recover per call) judged by a declaration model; declared names then used on a command line",
-         "Exploration: sequences of 1-6 declarations through all entry points with colliding name lists and valid/invalid argument names, on the root and inside subcommand initializers: a call panics iff it conflicts; for conflict-free sequences every name sets exactly its own variable.",
+         "Exploration: sequences of 1-6 declarations through all entry points with colliding name lists and valid/invalid argument names, on the root and inside subcommand initializers, going on after recovered panics and after a Run, sometimes sharing destination variables: a call panics iff it conflicts with a name taken by an accepted declaration; for conflict-free sequences every name sets exactly its own variable.",
          "Trusted: model '^[A-Z][A-Z0-9_]*$ minus OPTIONS'; sequences abandoned after the first panic.", "5/C18"),
  "C19": ("runtime monitor: instrumented user value types log every Set/Clear; the call log is checked against the documented protocol",
          "Exploration: 12 method-set variants as options and argument, env none/valid/invalid, Set failing on a token, all spellings: exact call log at declaration (environment protocol) and at Run (one Clear iff Clear exists and the line bound something, Set with exactly the bound tokens in order, flags get Set(\"true\")), Set error => usage error with prefix-consistent logs.",
          "Trusted: the command-line reading used to compute the expected tokens (simple spec shapes with a unique derivation).", "5/C19"),
  "C20": ("Go race detector over concurrently built-and-run applications + outcome-equality monitors (concurrent vs solo, permuted sequential order, rebuild)",
-         "Exploration of the schedules the runtime produced: 16 goroutines build and run applications from a pool whose solo outcomes were recorded; any race report or any outcome differing from solo is a violation; the same pool in random sequential orders and rebuilt twice must also reproduce the solo outcomes. Evidence counts the runs that actually overlapped.",
+         "Exploration of the schedules the runtime produced: 16 goroutines build and run applications from a pool whose solo outcomes were recorded; any race report or any outcome differing from solo is a violation; the same pool in random sequential orders, rebuilt twice, declared interleaved, reused as one object over several lines, nested inside another application's Action and meeting over a channel must also reproduce the solo outcomes, which are themselves compared with the reference verdict. Evidence counts the runs that actually overlapped.",
          "Trusted: race detector (sees executed accesses only); environment fixed before goroutines start; shared discarding error stream.", "5/C20"),
 }
 
